@@ -23,7 +23,7 @@ import numpy as np
 from scipy.stats import betabinom  # type: ignore[import]
 
 from black_it.samplers.base import BaseSampler
-from black_it.utils.base import _assert
+from black_it.utils.base import _assert, digitize_data
 
 if TYPE_CHECKING:
     from numpy.typing import NDArray
@@ -148,4 +148,5 @@ class BestBatchSampler(BaseSampler):
                     search_space.parameters_bounds[1][index],
                 )
 
-        return sampled_points
+        # clipping to the bounds (and float arithmetic) can leave the precision grid: snap back onto it
+        return digitize_data(sampled_points, search_space.param_grid)
